@@ -114,7 +114,7 @@ RecInDomain(r) ==
   /\ (r.f[1] = <<>> \/ r.f[1][1] # AT)
   /\ \A i \in 1..Len(r.tags) :
        LET t == r.tags[i] IN
-       /\ Len(t.key) = 2 /\ NoByte(t.key, {TAB, CR, LF, COLON})
+       /\ Len(t.key) >= 1 /\ Len(t.key) = Len(r.tags[1].key) /\ NoByte(t.key, {TAB, CR, LF, COLON})   \* keys of one length: "sorted" is unambiguous
        /\ (i < Len(r.tags) => LexLess(t.key, r.tags[i + 1].key))
        /\ CASE t.ty = TyA -> Len(t.val) = 1 /\ t.val[1] \in 32..126
             [] t.ty = Tyi -> IsCanonInt(t.val)
